@@ -520,6 +520,6 @@ func checkC05(r *core.Run, p *core.Program) {
 			got = strings.Join(e.stmts(info, lit.Body.List), "; ")
 		}
 		want := "iface.OnMap(); range($v1,$v2:$v3){def($v4=(*iterator.structField).getValueFromStruct($v5)); if(iterator.shouldIncludeField($v2,$v4,$ctx.Configuration.Iterator.DefaultFieldOmitBehavior)){if(!$v2.IsAnonymous){iface.OnStringlikeArray(ArrayTypeString,$v2.Name)}; callfield:Iterate($v6,$v4)}}; iface.OnEndContainer()"
-		r.Check("C05.struct-fields", "iterator.newStructIterator$1", f.Decl.Pos(), got == want, "the struct iterator does `"+got+"`; required `"+want+"`")
+		r.Check("C05.struct-fields", "iterator.newStructIterator$1", f.Decl.Pos(), sameEffect(got, []string{want}), "the struct iterator does `"+got+"`; required `"+want+"`")
 	}
 }
